@@ -9,6 +9,7 @@ import (
 	"fmt"
 	"math/rand"
 	"sort"
+	"strconv"
 	"strings"
 	"time"
 
@@ -199,11 +200,11 @@ var OpArgs = map[string]string{
 type Obj struct {
 	Type string
 	Ctor string
-	Hdr  core.Ev                    // conventions of the type, merged into the Reset event
+	Hdr  core.Ev                     // conventions of the type, merged into the Reset event
 	Ops  map[string]func(Op) core.Ev // available operations
-	Obs  func() core.Ev             // Size(), first/last key: taken after every call
-	Proj func() core.Ev             // full enumeration
-	N    int                        // pool size
+	Obs  func() core.Ev              // Size(), first/last key: taken after every call
+	Proj func() core.Ev              // full enumeration
+	N    int                         // pool size
 }
 
 // Has reports whether the type offers the operation.
@@ -222,7 +223,15 @@ func (o *Obj) OpNames() []string {
 // Watchdog is how long a single call may take before it is recorded as a
 // self-deadlock ("Timeout").  A call on these in-memory structures takes
 // microseconds; the margin only has to beat scheduler stalls on a loaded box.
-var Watchdog = 10 * time.Second
+var Watchdog = 3 * time.Second
+
+// hung counts the calls of (type, operation) that did not return in this
+// process.  After two, the operation is not issued on that type any more (the
+// call is skipped, nothing is recorded): the defect is already on record twice
+// and every further history would only wait for the watchdog again.
+var hung = map[string]int{}
+
+const hungLimit = 2
 
 // Guarded runs f on its own goroutine; it reports a recovered panic and
 // whether f failed to return in time (the goroutine is abandoned then).
@@ -304,6 +313,10 @@ func (s *Session) Do(op Op) core.Ev {
 	if f == nil {
 		panic("no op " + op.Name + " on " + s.O.Type)
 	}
+	hkey := s.O.Type + "." + op.Name
+	if hung[hkey] >= hungLimit {
+		return nil
+	}
 	ev := core.Ev{"ev": op.Name}
 	switch OpArgs[op.Name] {
 	case "kv":
@@ -330,6 +343,9 @@ func (s *Session) Do(op Op) core.Ev {
 		}
 	})
 	if msg != "" || to {
+		if to {
+			hung[hkey]++
+		}
 		s.fail(op.String(), msg, to)
 		return nil
 	}
@@ -410,10 +426,11 @@ type Profile struct {
 	Whole  int // clear / sort / enumerations / bound changes
 	Fresh  int // percent of key choices drawn from the whole pool rather than from recently used keys
 	Bound  bool
+	Grow   bool // let the structure fill up: Clear is rare, the bound stays off or far above the size
 }
 
 var Profiles = []Profile{
-	{Name: "grow", Insert: 70, Look: 15, Remove: 8, Whole: 7, Fresh: 80},
+	{Name: "grow", Insert: 70, Look: 15, Remove: 8, Whole: 7, Fresh: 80, Grow: true},
 	{Name: "churn", Insert: 40, Look: 25, Remove: 25, Whole: 10, Fresh: 40},
 	{Name: "bounded", Insert: 60, Look: 15, Remove: 10, Whole: 15, Fresh: 70, Bound: true},
 	{Name: "mixed", Insert: 45, Look: 25, Remove: 15, Whole: 15, Fresh: 50},
@@ -480,7 +497,7 @@ func RandomHistory(r *rand.Rand, s *Session, pr Profile, nops int, vlo, vhi int)
 		default:
 			name = pickOp(r, o, wholeOps)
 		}
-		if name == "" {
+		if name == "" || (pr.Grow && name == "Clear" && r.Intn(10) > 0) {
 			continue
 		}
 		op := Op{Name: name}
@@ -496,10 +513,12 @@ func RandomHistory(r *rand.Rand, s *Session, pr Profile, nops int, vlo, vhi int)
 			op.Dir = Dirs[r.Intn(len(Dirs))]
 		case "n":
 			sz := size()
-			switch r.Intn(4) {
-			case 0:
+			switch x := r.Intn(4); {
+			case pr.Grow && x > 0:
+				op.V = sz + n/2 + r.Intn(n) // far away: does not stop the growth
+			case x == 0:
 				op.V = 0
-			case 1:
+			case x == 1:
 				op.V = sz // exactly full (0 when empty = unbounded)
 			default:
 				op.V = sz + 1 + r.Intn(4)
@@ -732,4 +751,272 @@ func Explore(t *core.Trace, gen string, cas int, fresh func() *Obj, sc Scope, ad
 	}
 	events += s.Events
 	return len(nodes), transitions, events, s.Dead
+}
+
+// ------------------------- replay of a TLC-produced state graph (B, spec -> code)
+
+// GState is one state of the model: iteration order, values in that order, bound.
+type GState struct {
+	Keys, Vals []int
+	Max        int
+}
+
+// GEdge is one labelled transition of the model.
+type GEdge struct {
+	Op  Op
+	Dst int
+}
+
+// Graph is the complete labelled state graph of a small-scope MC_* run of TLC
+// (text form: see ParseGraph).  State 0 is the initial state.
+type Graph struct {
+	Name   string
+	States []GState
+	Out    [][]GEdge
+	NEdges int
+	NKeys  int // the largest key of any label
+}
+
+func ints(s string) ([]int, error) {
+	if s == "" {
+		return []int{}, nil
+	}
+	var out []int
+	for _, f := range strings.Split(s, ",") {
+		v, err := strconv.Atoi(f)
+		if err != nil {
+			return nil, err
+		}
+		out = append(out, v)
+	}
+	return out, nil
+}
+
+// ParseGraph reads the text form written by the check from TLC's transition dump:
+//
+//	S <id> <keys,..>|<vals,..>|<max>       one line per state, ids 0..n-1 in order
+//	E <src> <op> <a> <b> <dst>             one line per transition; the label
+//	                                       <<op, a, b>> is <<name, key, value>>,
+//	                                       <<"Sort", index into Dirs, 0>> or
+//	                                       <<"SetMax", bound, 0>>,
+//	                                       <<"ContainsValue", 0, value>>
+func ParseGraph(name, text string) (*Graph, error) {
+	g := &Graph{Name: name}
+	for ln, line := range strings.Split(text, "\n") {
+		f := strings.Fields(line)
+		if len(f) == 0 || f[0] == "#" {
+			continue
+		}
+		bad := func(err error) (*Graph, error) {
+			return nil, fmt.Errorf("graph %s line %d %q: %v", name, ln+1, line, err)
+		}
+		switch f[0] {
+		case "S":
+			if len(f) != 3 {
+				return bad(fmt.Errorf("want 3 fields"))
+			}
+			id, err := strconv.Atoi(f[1])
+			if err != nil || id != len(g.States) {
+				return bad(fmt.Errorf("state ids must be 0,1,2,.. in order"))
+			}
+			p := strings.Split(f[2], "|")
+			if len(p) != 3 {
+				return bad(fmt.Errorf("want keys|vals|max"))
+			}
+			k, e1 := ints(p[0])
+			v, e2 := ints(p[1])
+			m, e3 := strconv.Atoi(p[2])
+			if e1 != nil || e2 != nil || e3 != nil || len(k) != len(v) {
+				return bad(fmt.Errorf("bad state"))
+			}
+			g.States = append(g.States, GState{Keys: k, Vals: v, Max: m})
+			g.Out = append(g.Out, nil)
+		case "E":
+			if len(f) != 6 {
+				return bad(fmt.Errorf("want 6 fields"))
+			}
+			src, e1 := strconv.Atoi(f[1])
+			a, e2 := strconv.Atoi(f[3])
+			b, e3 := strconv.Atoi(f[4])
+			dst, e4 := strconv.Atoi(f[5])
+			if e1 != nil || e2 != nil || e3 != nil || e4 != nil || src < 0 || src >= len(g.States) || dst < 0 || dst >= len(g.States) {
+				return bad(fmt.Errorf("bad edge"))
+			}
+			op := Op{Name: f[2]}
+			switch OpArgs[op.Name] {
+			case "kv":
+				op.K, op.V = a, b
+			case "k":
+				op.K = a
+			case "v":
+				op.V = b
+			case "n":
+				op.V = a
+			case "dir":
+				if a < 1 || a > len(Dirs) {
+					return bad(fmt.Errorf("bad sort direction"))
+				}
+				op.Dir = Dirs[a-1]
+			}
+			if op.K > g.NKeys {
+				g.NKeys = op.K
+			}
+			g.Out[src] = append(g.Out[src], GEdge{Op: op, Dst: dst})
+			g.NEdges++
+		default:
+			return bad(fmt.Errorf("unknown line"))
+		}
+	}
+	if len(g.States) == 0 || len(g.States[0].Keys) != 0 || g.States[0].Max != 0 {
+		return nil, fmt.Errorf("graph %s: state 0 must be the empty, unbounded initial state", name)
+	}
+	return g, nil
+}
+
+func sameInts(a, b []int) bool {
+	if len(a) != len(b) {
+		return false
+	}
+	for i := range a {
+		if a[i] != b[i] {
+			return false
+		}
+	}
+	return true
+}
+
+// ReplayStats is what one replay of a graph on one real type did.
+type ReplayStats struct {
+	Edges     int  // transitions of the model
+	Offered   int  // of these, calls the type offers (the others cannot be issued)
+	Replayed  int  // distinct model transitions executed on the real object
+	States    int  // distinct model states the real object was driven through
+	Events    int  // events written (replayed transitions + connecting steps + resets)
+	Diverged  bool // the real object left the model (or panicked / hung): stopped there
+	Unreached int  // offered transitions whose source state cannot be reached with the offered calls
+}
+
+// Replay drives fresh real objects through EVERY transition of the model's state
+// graph the type offers: a walk from the initial state that takes each edge at
+// least once (nearest-untaken-edge first; a new history is started every cut
+// events).  Each step is recorded with the full projection, so TLC judges every
+// transition; in addition the walk compares the projection with the model's
+// successor state and stops at the first difference (the walk would be lost),
+// leaving the verdict on that event to TLC.
+func (g *Graph) Replay(t *core.Trace, gen string, cas int, fresh func() *Obj, cut int, extra core.Ev) ReplayStats {
+	var st ReplayStats
+	st.Edges = g.NEdges
+	var s *Session
+	start := func() {
+		if s != nil {
+			st.Events += s.Events
+		}
+		s = Start(t, gen, cas, fresh(), true, extra)
+	}
+	start()
+	o := s.O
+	// the edges this type can take
+	out := make([][]GEdge, len(g.Out))
+	for i, es := range g.Out {
+		for _, e := range es {
+			if o.Has(e.Op.Name) {
+				out[i] = append(out[i], e)
+				st.Offered++
+			}
+		}
+	}
+	taken := make([][]bool, len(out))
+	for i := range out {
+		taken[i] = make([]bool, len(out[i]))
+	}
+	visited := map[int]bool{0: true}
+	untaken := func(n int) int {
+		for i := range out[n] {
+			if !taken[n][i] {
+				return i
+			}
+		}
+		return -1
+	}
+	step := func(cur int, i int) (int, bool) {
+		e := out[cur][i]
+		ev := s.Do(e.Op)
+		if ev == nil {
+			return cur, false
+		}
+		if !taken[cur][i] {
+			taken[cur][i] = true
+			st.Replayed++
+		}
+		want := g.States[e.Dst]
+		if !sameInts(asInts(ev["keys"]), want.Keys) || !sameInts(asInts(ev["vals"]), want.Vals) {
+			return cur, false
+		}
+		visited[e.Dst] = true
+		return e.Dst, true
+	}
+	cur := 0
+	for {
+		var path []int // edge indices to follow from cur
+		if i := untaken(cur); i >= 0 {
+			path = []int{i}
+		} else {
+			// nearest state with an untaken edge
+			type qe struct {
+				n    int
+				path []int
+			}
+			seen := map[int]bool{cur: true}
+			q := []qe{{cur, nil}}
+			for len(q) > 0 && path == nil {
+				x := q[0]
+				q = q[1:]
+				for i, e := range out[x.n] {
+					if seen[e.Dst] {
+						continue
+					}
+					seen[e.Dst] = true
+					p := append(append([]int(nil), x.path...), i)
+					if untaken(e.Dst) >= 0 {
+						path = append(p, -1)
+						break
+					}
+					q = append(q, qe{e.Dst, p})
+				}
+			}
+			if path == nil {
+				if cur != 0 { // what is left (if anything) can only be reached from the initial state
+					start()
+					cur = 0
+					continue
+				}
+				break
+			}
+		}
+		ok := true
+		for _, i := range path {
+			if i < 0 {
+				i = untaken(cur)
+			}
+			if cur, ok = step(cur, i); !ok {
+				break
+			}
+		}
+		if !ok {
+			st.Diverged = true
+			break
+		}
+		if cut > 0 && s.Events >= cut {
+			start()
+			cur = 0
+		}
+	}
+	st.Events += s.Events
+	st.States = len(visited)
+	for n := range out {
+		if !visited[n] {
+			st.Unreached += len(out[n])
+		}
+	}
+	return st
 }
